@@ -10,7 +10,7 @@ from __future__ import annotations
 import ast
 
 FUNCS = {}
-MODULES = {"itertools", "operator", "functools", "collections", "copy", "contextlib", "concurrent.futures", "io"}
+MODULES = {"itertools", "operator", "functools", "collections", "copy", "contextlib", "concurrent.futures", "io", "re"}
 
 
 def reg(*names):
@@ -438,3 +438,139 @@ def _stringio(it, args, kwargs, node):
     if init not in (None, ""):
         raise A.Unsupported("io.StringIO with an initial value (writes then overwrite it from position 0)")
     return StringIO(init)
+
+
+# ----------------------------------------------------------------------------- re (evaluated on concrete subjects only)
+def _regex_classes():
+    A = _A()
+    import re as _re
+
+    class MatchObj(A.AbsVal):
+        def __init__(self, m):
+            self.m = m
+
+        def __repr__(self):
+            return f"<match {self.m.group(0)!r}>"
+
+        def truth(self, it):
+            return True
+
+        def call_method(self, it, name, args, kwargs):
+            if name in ("group", "start", "end", "span", "groups", "groupdict", "expand"):
+                if not all(isinstance(a, (int, str)) for a in args):
+                    raise A.Unsupported(f"match.{name} with abstract arguments")
+                try:
+                    r = getattr(self.m, name)(*args, **{k: v for k, v in kwargs.items()})
+                except (IndexError, _re.error) as e:
+                    it.raise_builtin(type(e).__name__ if isinstance(e, IndexError) else "error", str(e))
+                return it.lift(r)
+            if name in ("__deepcopy__", "__copy__"):
+                return self
+            return NotImplemented
+
+        def subscript(self, it, idx):
+            if isinstance(idx, (int, str)):
+                try:
+                    return self.m[idx]
+                except IndexError as e:
+                    it.raise_builtin("IndexError", str(e))
+            return NotImplemented
+
+        def get_attr(self, it, name):
+            if name in ("lastindex", "lastgroup", "pos", "endpos", "string"):
+                return getattr(self.m, name)
+            return NotImplemented
+
+    class RegexObj(A.AbsVal):
+        def __init__(self, pattern, flags):
+            self.rx = _re.compile(pattern, flags)
+
+        def __repr__(self):
+            return f"<regex {self.rx.pattern!r}>"
+
+        def get_attr(self, it, name):
+            if name in ("pattern", "flags", "groups"):
+                return getattr(self.rx, name)
+            return NotImplemented
+
+        def call_method(self, it, name, args, kwargs):
+            if name in ("match", "fullmatch", "search", "sub", "subn", "split", "findall", "finditer"):
+                return run(it, self.rx, name, list(args), kwargs)
+            if name in ("__deepcopy__", "__copy__"):
+                return self
+            return NotImplemented
+
+    def run(it, rx, name, args, kwargs):
+        subject_i = 1 if name in ("sub", "subn") else 0
+        if len(args) <= subject_i or not isinstance(args[subject_i], str) or not all(isinstance(a, (str, int)) for a in args) or kwargs:
+            # an abstract subject: the outcome is not known
+            return A.Unknown(f"re.{name}()")
+        try:
+            r = getattr(rx, name)(*args)
+        except (_re.error, IndexError) as e:
+            it.raise_builtin("error", str(e))
+        if name in ("match", "fullmatch", "search"):
+            return MatchObj(r) if r is not None else None
+        if name == "finditer":
+            return A.AIter([MatchObj(m) for m in r])
+        return it.lift(r)
+    return RegexObj, MatchObj, run
+
+
+_RX = None
+
+
+def _rx():
+    global _RX
+    if _RX is None:
+        _RX = _regex_classes()
+    return _RX
+
+
+def _flags_of(it, args, kwargs, pos):
+    f = kwargs.get("flags", args[pos] if len(args) > pos else 0)
+    if isinstance(f, bool) or not isinstance(f, int):
+        raise _A().Unsupported("regular-expression flags that are no constant")
+    return f
+
+
+@reg("re.compile")
+def _re_compile(it, args, kwargs, node):
+    A = _A()
+    import re as _re
+    if not args or not isinstance(args[0], str):
+        raise A.Unsupported("re.compile of a pattern that is no constant")
+    try:
+        return _rx()[0](args[0], _flags_of(it, args, kwargs, 1))
+    except _re.error as e:
+        it.raise_builtin("error", str(e))
+
+
+def _re_fn(name, npat_args):
+    def f(it, args, kwargs, node):
+        A = _A()
+        import re as _re
+        if not args or not isinstance(args[0], str):
+            return A.Unknown(f"re.{name}()")
+        flags = kwargs.pop("flags", 0) if isinstance(kwargs, dict) else 0
+        rest = list(args[1:])
+        if name in ("match", "fullmatch", "search", "findall", "finditer", "split") and len(rest) > 1 and isinstance(rest[-1], int) and name != "split":
+            flags = rest.pop()
+        try:
+            rx = _re.compile(args[0], flags if isinstance(flags, int) else 0)
+        except _re.error as e:
+            it.raise_builtin("error", str(e))
+        return _rx()[2](it, rx, name, rest, {})
+    return f
+
+
+for _n in ("match", "fullmatch", "search", "sub", "subn", "split", "findall", "finditer"):
+    FUNCS[f"re.{_n}"] = _re_fn(_n, 1)
+
+
+@reg("re.escape")
+def _re_escape(it, args, kwargs, node):
+    import re as _re
+    if args and isinstance(args[0], str):
+        return _re.escape(args[0])
+    return _A().Unknown("re.escape()")
